@@ -3,7 +3,7 @@
 UFLBuild's action `replace` denotes the operand evaluated where the mapped terminal takes the value
 of its image (environments are built in pairs so that this is a table lookup in the spec).  TLC
 enumerates expressions followed by replace for several maps (terminal -> terminal, -> scaled
-terminal, -> sum, -> product, self-referential f -> 2 f); the replay calls ufl.replace and compares
+terminal, -> sum, -> product, self-referential f -> 2 f, -> a number, -> a zero tensor); the replay calls ufl.replace and compares
 value, shape and free indices.  In addition: an expression without the mapped terminal must come
 back as the same object, and shape-changing maps must be refused.
 """
@@ -20,7 +20,8 @@ U, V, W = ("u", (2,)), ("v", (2,)), ("w", (2,))
 A, B = ("A", (2, 2)), ("B", (2, 2))
 RP = {"replace"}
 
-MAPS = [("f", ("term", "g")), ("f", ("scale", 2, "g")), ("f", ("sum", "g", "h")), ("f", ("scale", 3, "f")), ("u", ("term", "v")), ("u", ("sum", "v", "w")), ("u", ("prod", "g", "v")), ("A", ("term", "B"))]
+MAPS = [("f", ("term", "g")), ("f", ("scale", 2, "g")), ("f", ("sum", "g", "h")), ("f", ("scale", 3, "f")), ("u", ("term", "v")), ("u", ("sum", "v", "w")), ("u", ("prod", "g", "v")), ("A", ("term", "B")),
+        ("f", ("const", 0)), ("f", ("const", 2)), ("u", ("const", 0)), ("u", ("const", 3)), ("A", ("const", 0))]
 
 
 def _maps(terms):
@@ -81,14 +82,17 @@ def shape_changing(ctx):
     from .. import replay as R
     from ..envs import Pool
 
-    pool = Pool([F, U, A], nenv=1, seed=ctx.seed)
+    P3, M23, M32 = ("p", (3,)), ("M", (2, 3)), ("N", (3, 2))
+    pool = Pool([F, U, A, P3, M23, M32], nenv=1, seed=ctx.seed)
     w = R.World(pool, [], [], [10])
-    f, u, A_ = w.terms
-    exprs = [f * f, u[0] * f, ufl.dot(u, u), ufl.det(A_) + f, ufl.inner(A_, A_), abs(f) * u]
+    f, u, A_, p3, m23, m32 = w.terms
+    exprs = [f * f, u[0] * f, ufl.dot(u, u), ufl.det(A_) + f, ufl.inner(A_, A_), abs(f) * u, ufl.dot(p3, p3) * f, ufl.inner(m23, m23) + ufl.dot(u, ufl.dot(m23, p3))]
+    srcs = (f, u, A_, p3, m23)
+    imgs = (f, u, A_, ufl.as_vector([f, f]), f * u, p3, m23, m32, ufl.as_vector([f, f, f]), ufl.zero(3), ufl.zero(2, 3), ufl.Constant(w.mesh, shape=(3,)), 2 * p3, ufl.outer(u, p3), ufl.outer(p3, u))
     n = 0
     for e in exprs:
-        for src in (f, u, A_):
-            for img in (f, u, A_, ufl.as_vector([f, f]), f * u):
+        for src in srcs:
+            for img in imgs:
                 if img.ufl_shape == src.ufl_shape:
                     continue
                 n += 1
@@ -99,7 +103,7 @@ def shape_changing(ctx):
                     ctx.count("shape_changing_maps_refused")
                     continue
                 ctx.violation(
-                    f"C21:shape-changing-map-accepted:{len(src.ufl_shape)}->{len(img.ufl_shape)}",
+                    f"C21:shape-changing-map-accepted:{'x'.join(map(str, src.ufl_shape)) or 's'}->{'x'.join(map(str, img.ufl_shape)) or 's'}",
                     f"replace({e!s}, {{{src!s}: {img!s}}}) was accepted although the shapes differ ({src.ufl_shape} vs {img.ufl_shape})",
                     {"kind": "shape-changing", "expr": str(e), "src": str(src), "img": str(img)},
                 )
